@@ -28,8 +28,21 @@ def main():
         if hasattr(mod, "replay"):
             rc = mod.replay(rp, drv)
         else:
-            print("replay: re-running %s quick check with seed %s" % (prop, rp.get("seed")))
-            rc = 2
+            # generic replay: every check is deterministic given (source tree, seed, tier), so re-running the check with the replay's
+            # seed and tier regenerates the same cases (corpus first) and reports the same violation while it persists
+            print("replay: re-running the %s %s check with seed %s (deterministic regeneration of the reported case)" % (prop, rp.get("tier", "quick"), rp.get("seed")))
+            rep = common.Report(prop, rp.get("tier", "quick"), int(rp.get("seed", seed)))
+            rep.coq = {"obligations": common.count_statements(mod.CONFIG["cone"]), "discharged": 0}
+            try:
+                mod.check(rep, rp.get("tier", "quick"), int(rp.get("seed", seed)), drv)
+            except Exception as e:  # noqa
+                traceback.print_exc()
+                rep.violation("harness crashed: %r" % (e,), {"kind": "harness-crash"}, False, {"kind": "crash"})
+            same = [v for v in rep.violations if v["tags"] == rp.get("tags") or v["what"] == rp.get("what")]
+            for v in rep.violations[:5]:
+                print("  reproduced: %s" % v["what"][:300])
+            print("replay: %d violation(s), %d matching the replayed one" % (len(rep.violations), len(same)))
+            rc = 1 if rep.violations else 0
         drv.close()
         sys.exit(rc)
     prop = a.target
